@@ -150,6 +150,68 @@ pub fn run_fast_check(w: &FcWorld, cache: Option<&MemCache>, dts: bool) -> FcRun
   FcRun { graph, slots, graph_errors }
 }
 
+/// the first package of the world as a workspace member rooted at file:///ws/ (diagnostics are
+/// collected over the whole package instead of stopping at the first one); slots keyed by file URL
+pub fn run_fast_check_workspace(w: &FcWorld, cache: Option<&MemCache>) -> FcRun {
+  let p = &w.pkgs[0];
+  let base = "file:///ws/";
+  let url = |path: &str| format!("{}{}", base, path.trim_start_matches('/'));
+  let srcs: Vec<(String, Source<String, String>)> = p
+    .files
+    .iter()
+    .map(|(path, text)| {
+      let u = url(path);
+      (u.clone(), Source::Module { specifier: u, maybe_headers: None, content: text.clone() })
+    })
+    .collect();
+  let analyzer = CapturingModuleAnalyzer::default();
+  let loader = MemoryLoader::new(srcs, vec![]);
+  let mut graph = ModuleGraph::new(GraphKind::All);
+  let roots: Vec<ModuleSpecifier> = p.exports.iter().map(|(_, path)| ModuleSpecifier::parse(&url(path.trim_start_matches('.'))).unwrap()).collect();
+  crate::build::block_on(graph.build(
+    roots,
+    vec![],
+    &loader,
+    BuildOptions { module_analyzer: &analyzer, executor: &crate::world::InlineExecutor, ..Default::default() },
+  ));
+  let graph_errors: Vec<String> = graph.module_errors().map(|e| e.to_string()).collect();
+  let members = vec![deno_graph::WorkspaceMember {
+    base: ModuleSpecifier::parse(base).unwrap(),
+    name: p.name.as_str().into(),
+    version: Some(deno_semver::Version::parse_standard(&p.version).unwrap()),
+    exports: p.exports.iter().cloned().collect(),
+  }];
+  if graph_errors.is_empty() {
+    graph.build_fast_check_type_graph(BuildFastCheckTypeGraphOptions {
+      fast_check_cache: cache.map(|c| c as &dyn FastCheckCache),
+      fast_check_dts: false,
+      jsr_url_provider: Default::default(),
+      es_parser: Some(&analyzer),
+      resolver: None,
+      workspace_fast_check: WorkspaceFastCheckOption::Enabled(&members),
+    });
+  }
+  let mut slots = BTreeMap::new();
+  for m in graph.modules() {
+    if !m.specifier().as_str().starts_with(base) {
+      continue;
+    }
+    let Module::Js(js) = m else { continue };
+    let slot = match &js.fast_check {
+      None => FcSlot::None,
+      Some(deno_graph::FastCheckTypeModuleSlot::Module(fm)) => FcSlot::Module {
+        text: fm.source.to_string(),
+        deps: fm.dependencies.iter().map(|(k, d)| format!("{}=>{}", k, d.get_code().or(d.get_type()).map(|s| s.to_string()).unwrap_or("?".into()))).collect(),
+        source_map: fm.source_map.to_string(),
+        dts: None,
+      },
+      Some(deno_graph::FastCheckTypeModuleSlot::Error(ds)) => FcSlot::Diagnostics(ds.iter().map(|d| format!("{}: {}", d.code(), d.specifier())).collect()),
+    };
+    slots.insert(m.specifier().to_string(), slot);
+  }
+  FcRun { graph, slots, graph_errors }
+}
+
 /// `dgh fc-run <file.json>`: {"main": "...", "pkgs": [{"name","version","exports":{..},"files":{..}}]} -> emitted modules
 pub fn cli(path: &str) {
   let v: serde_json::Value = serde_json::from_str(&std::fs::read_to_string(path).unwrap()).unwrap();
